@@ -130,3 +130,201 @@ pub fn octet(rec: &mut Recorder, _rng: &mut Rng, _thorough: bool) {
     }
     rec.add("triples_checked", 256 * 256 * 256);
 }
+
+// ---------------------------------------------------------------- C11 / C12: kernels
+use crate::guard::{GuardBuf, Place};
+use raptorq::verif::verif_kernels as vk;
+
+fn path_char(level: u8) -> char {
+    match level { 0 => 'p', 1 => 's', 2 => 'a', _ => 'x' }
+}
+
+fn contents(rng: &mut Rng, len: usize, kind: u64) -> Vec<u8> {
+    match kind % 6 {
+        0 => rng.bytes(len),
+        1 => vec![0u8; len],
+        2 => vec![0xFFu8; len],
+        3 => { let mut v = vec![0u8; len]; if len > 0 { let i = rng.below(len as u64) as usize; v[i] = 1 << rng.below(8); } v }
+        4 => (0..len).map(|i| i as u8).collect(),
+        _ => (0..len).map(|i| (i as u8).wrapping_mul(17) | 0x80).collect(),
+    }
+}
+
+fn placement(rng: &mut Rng, it: u64) -> Place {
+    match it % 4 { 0 => Place::EndFlush, 1 => Place::StartFlush, _ => Place::Offset(rng.below(64) as usize) }
+}
+
+fn spec_bits(words: &[u64], length: usize) -> Vec<u8> {
+    let padding = (64 - length % 64) % 64;
+    (0..length).map(|i| { let p = padding + i; ((words[p / 64] >> (p % 64)) & 1) as u8 }).collect()
+}
+
+pub fn kernels(rec: &mut Recorder, rng: &mut Rng, thorough: bool, outdir: &str) {
+    crate::guard::install(&format!("{outdir}/fault.txt"));
+    let maxlen = if thorough { 1100 } else { 4 * 64 + 17 };
+    let mut it: u64 = 0;
+    for level in 0..=3u8 {
+        let pc = path_char(level);
+        for len in 0..=maxlen {
+            let reps = if len <= 130 || thorough { 3 } else { 1 };
+            for rep in 0..reps {
+                it += 1;
+                // ---- add
+                if vk::supported("add", level) {
+                    let (d0, s0) = (contents(rng, len, it), contents(rng, len, it / 3 + rep));
+                    let (pd, ps) = (placement(rng, it), placement(rng, it + 1));
+                    crate::guard::set_case(&format!("FAULT kernel=add path={pc} len={len} dest={:?} src={:?}", pd, ps));
+                    let mut gd = GuardBuf::from(&d0, pd);
+                    let gs = GuardBuf::from(&s0, ps);
+                    let before = (gd.slack_digest(), gs.slack_digest());
+                    vk::add_assign_at(level, true, gd.as_mut(), gs.as_ref());
+                    let out = gd.as_ref().to_vec();
+                    let want: Vec<u8> = d0.iter().zip(&s0).map(|(a, b)| a ^ b).collect();
+                    if out != want { rec.impl_violation(format!("add_assign path={pc} len={len}: wrong result (dest={} src={})", hex(&d0), hex(&s0))); }
+                    if (gd.slack_digest(), gs.slack_digest()) != before || gs.as_ref() != &s0[..] { rec.impl_violation(format!("add_assign path={pc} len={len}: wrote outside dest")); }
+                    rec.put(&format!("krn add {pc} {} {}", hex(&d0), hex(&s0)), &hex(&out));
+                    rec.count(&format!("add_{pc}"));
+                }
+                // ---- mul / fma
+                if vk::supported("mul", level) {
+                    let c = if rep == 0 { (len % 254 + 2) as u8 } else { rng.range(0, 255) as u8 };
+                    let d0 = contents(rng, len, it + 2);
+                    let pd = placement(rng, it + 2);
+                    crate::guard::set_case(&format!("FAULT kernel=mul path={pc} len={len} scalar={c} dest={:?}", pd));
+                    let mut gd = GuardBuf::from(&d0, pd);
+                    let before = gd.slack_digest();
+                    vk::mulassign_scalar_at(level, true, gd.as_mut(), &Octet::new(c));
+                    let out = gd.as_ref().to_vec();
+                    let want: Vec<u8> = d0.iter().map(|a| pmul(c, *a)).collect();
+                    if out != want { rec.impl_violation(format!("mulassign_scalar path={pc} len={len} scalar={c}: wrong result (dest={})", hex(&d0))); }
+                    if gd.slack_digest() != before { rec.impl_violation(format!("mulassign_scalar path={pc} len={len}: wrote outside dest")); }
+                    rec.put(&format!("krn mul {pc} {c} {}", hex(&d0)), &hex(&out));
+                    rec.count(&format!("mul_{pc}"));
+
+                    let c = if rep == 0 { (len % 253 + 2) as u8 } else { rng.range(2, 255) as u8 };
+                    let (d0, s0) = (contents(rng, len, it + 3), contents(rng, len, it / 2 + 1));
+                    let (pd, ps) = (placement(rng, it + 3), placement(rng, it));
+                    crate::guard::set_case(&format!("FAULT kernel=fma path={pc} len={len} scalar={c} dest={:?} src={:?}", pd, ps));
+                    let mut gd = GuardBuf::from(&d0, pd);
+                    let gs = GuardBuf::from(&s0, ps);
+                    let before = (gd.slack_digest(), gs.slack_digest());
+                    vk::fma_at(level, true, gd.as_mut(), gs.as_ref(), &Octet::new(c));
+                    let out = gd.as_ref().to_vec();
+                    let want: Vec<u8> = d0.iter().zip(&s0).map(|(a, b)| a ^ pmul(c, *b)).collect();
+                    if out != want { rec.impl_violation(format!("fused_addassign_mul_scalar path={pc} len={len} scalar={c}: wrong result")); }
+                    if (gd.slack_digest(), gs.slack_digest()) != before || gs.as_ref() != &s0[..] { rec.impl_violation(format!("fma path={pc} len={len}: wrote outside dest")); }
+                    rec.put(&format!("krn fma {pc} {c} {} {}", hex(&d0), hex(&s0)), &hex(&out));
+                    rec.count(&format!("fma_{pc}"));
+                }
+                // ---- binary fma (avx512, avx2 exact; the dispatcher's portable route for the others)
+                {
+                    let c = if rep == 1 { 1 } else { rng.range(1, 255) as u8 };
+                    let d0 = contents(rng, len, it + 4);
+                    let nwords = (len + 63) / 64;
+                    let words: Vec<u64> = (0..nwords).map(|i| match (it + i as u64) % 5 { 0 => 0, 1 => u64::MAX, _ => rng.next() }).collect();
+                    let pd = placement(rng, it + 5);
+                    crate::guard::set_case(&format!("FAULT kernel=fmabin path={pc} len={len} scalar={c} dest={:?}", pd));
+                    let mut gd = GuardBuf::from(&d0, pd);
+                    let before = gd.slack_digest();
+                    // the packed words live in an exactly sized heap Vec, as in the solver
+                    let bv = rq::BinaryOctetVec::new(words.clone(), len);
+                    let exact = vk::supported("fmabin", level);
+                    vk::fma_binary_at(level, exact, gd.as_mut(), &bv, &Octet::new(c));
+                    let out = gd.as_ref().to_vec();
+                    let bits = spec_bits(&words, len);
+                    let want: Vec<u8> = d0.iter().zip(&bits).map(|(a, b)| a ^ (if *b == 1 { c } else { 0 })).collect();
+                    if out != want { rec.impl_violation(format!("fused_addassign_mul_scalar_binary path={pc} len={len} scalar={c}: wrong result")); }
+                    if gd.slack_digest() != before { rec.impl_violation(format!("fmabin path={pc} len={len}: wrote outside dest")); }
+                    if vk::to_octet_vec(&bv) != bits { rec.impl_violation(format!("to_octet_vec len={len} disagrees with the documented layout")); }
+                    rec.put(&format!("krn fmabin {pc} {c} {} {len} {}", hex(&d0), list(&words)), &hex(&out));
+                    rec.count(&format!("fmabin_{pc}{}", if exact { "" } else { "_via_octets" }));
+                }
+            }
+        }
+        // all 256 scalars on a short length sweep
+        if vk::supported("mul", level) {
+            for c in 0..=255u8 {
+                for len in [1usize, 15, 16, 17, 31, 33, 63, 64, 65, 100] {
+                    let d0 = contents(rng, len, c as u64);
+                    let s0 = rng.bytes(len);
+                    let mut d = d0.clone();
+                    vk::mulassign_scalar_at(level, true, &mut d, &Octet::new(c));
+                    if d != d0.iter().map(|a| pmul(c, *a)).collect::<Vec<u8>>() { rec.impl_violation(format!("mulassign_scalar path={pc} len={len} scalar={c}: wrong result")); }
+                    rec.put(&format!("krn mul {pc} {c} {}", hex(&d0)), &hex(&d));
+                    if c >= 2 {
+                        let mut d = d0.clone();
+                        vk::fma_at(level, true, &mut d, &s0, &Octet::new(c));
+                        if d != d0.iter().zip(&s0).map(|(a, b)| a ^ pmul(c, *b)).collect::<Vec<u8>>() { rec.impl_violation(format!("fma path={pc} len={len} scalar={c}: wrong result")); }
+                        rec.put(&format!("krn fma {pc} {c} {} {}", hex(&d0), hex(&s0)), &hex(&d));
+                    }
+                    rec.count("scalar_sweep");
+                }
+            }
+        }
+    }
+    // dispatcher with ceilings: the public entry points on every path the host offers
+    for level in [0u8, 1, 2, 3] {
+        vk::set_ceiling(level);
+        for len in [0usize, 1, 7, 8, 9, 63, 64, 65, 127, 129, 200] {
+            let (d0, s0) = (rng.bytes(len), rng.bytes(len));
+            let c = rng.range(2, 255) as u8;
+            let mut a = d0.clone(); rq::add_assign(&mut a, &s0);
+            let mut m = d0.clone(); rq::mulassign_scalar(&mut m, &Octet::new(c));
+            let mut f = d0.clone(); rq::fused_addassign_mul_scalar(&mut f, &s0, &Octet::new(c));
+            let ok = a == d0.iter().zip(&s0).map(|(x, y)| x ^ y).collect::<Vec<u8>>()
+                && m == d0.iter().map(|x| pmul(c, *x)).collect::<Vec<u8>>()
+                && f == d0.iter().zip(&s0).map(|(x, y)| x ^ pmul(c, *y)).collect::<Vec<u8>>();
+            if !ok { rec.impl_violation(format!("public kernel entry point wrong under ceiling {level} len={len}")); }
+            rec.count("dispatch");
+        }
+    }
+    vk::set_ceiling(vk::NO_CEILING);
+}
+
+// ---------------------------------------------------------------- C12: slab paired borrow
+pub fn slab(rec: &mut Recorder, rng: &mut Rng, thorough: bool) {
+    use raptorq::SymbolSlab;
+    use raptorq::verif::{SymbolOps, perform_op};
+    let sizes: Vec<usize> = if thorough { (1..=300).collect() } else { (1..=80).chain([127, 128, 129, 200, 255, 256, 257]).collect() };
+    for ss in sizes {
+        for _ in 0..(if thorough { 6 } else { 2 }) {
+            let count = rng.range(2, 7) as usize;
+            let syms: Vec<Vec<u8>> = (0..count).map(|_| rng.bytes(ss)).collect();
+            let mut slab = SymbolSlab::from_symbols(syms.iter().map(|s| raptorq::Symbol::new(s.clone())).collect(), ss);
+            let mut model = syms.clone();
+            // optional reorder (a permutation, as the solver produces)
+            if rng.chance(1, 3) {
+                let mut order: Vec<usize> = (0..count).collect();
+                rng.shuffle(&mut order);
+                perform_op(&SymbolOps::Reorder { order: order.clone() }, &mut slab);
+                model = order.iter().map(|p| syms[*p].clone()).collect();
+            }
+            for _ in 0..6 {
+                let dest = rng.below(count as u64) as usize;
+                let mut src = rng.below(count as u64) as usize;
+                if src == dest { src = (dest + 1) % count; }
+                let c = rng.range(2, 255) as u8;
+                match rng.below(3) {
+                    0 => { perform_op(&SymbolOps::AddAssign { dest, src }, &mut slab); let s = model[src].clone(); for (a, b) in model[dest].iter_mut().zip(&s) { *a ^= b; } }
+                    1 => { perform_op(&SymbolOps::MulAssign { dest, scalar: Octet::new(c) }, &mut slab); for a in model[dest].iter_mut() { *a = pmul(c, *a); } }
+                    _ => { perform_op(&SymbolOps::FMA { dest, src, scalar: Octet::new(c) }, &mut slab); let s = model[src].clone(); for (a, b) in model[dest].iter_mut().zip(&s) { *a ^= pmul(c, *b); } }
+                }
+                for i in 0..count {
+                    if slab.get(i) != &model[i][..] {
+                        rec.impl_violation(format!("slab op with symbol size {ss}: symbol {i} of {count} differs from the element-wise result (dest={dest} src={src}) - neighbouring symbol touched or wrong value"));
+                    }
+                }
+                rec.count("slab_ops");
+            }
+        }
+    }
+    // the paired borrow refuses dest == src and out-of-range indices
+    let mut slab = SymbolSlab::with_zeros(3, 8);
+    for (d, s) in [(1usize, 1usize), (0, 3), (3, 0)] {
+        let mut s2 = slab.clone();
+        let r = guarded(move || { s2.add_assign(d, s); });
+        if r.is_ok() { rec.impl_violation(format!("SymbolSlab::add_assign({d},{s}) on 3 symbols was not refused")); }
+        rec.count("slab_refusals");
+    }
+    slab.add_assign(0, 1);
+}
